@@ -1,7 +1,8 @@
 // 3GPP confidentiality/integrity algorithms written from the specifications
 // (ZUC-128/256 EEA3/EIA3, SNOW 3G UEA2/UIA2, KASUMI F8/F9). Each returns false
 // when no admitted reference exists (the caller then falls back to the
-// differential oracles).
+// differential oracles). Admission: tools/ref_admit.sh runs ref/admit/selftest_wireless.cc
+// (the standards' vectors, taken as data from /repo/test/kat-app, plus structural checks of every table).
 #pragma once
 #include "prims.h"
 bool ref_zuc_eea3(const uint8_t key[16], const uint8_t iv[16], const uint8_t *in, uint8_t *out, size_t len);
@@ -12,3 +13,11 @@ bool ref_snow3g_f8_keystream(const uint8_t key[16], const uint8_t iv[16], uint8_
 bool ref_snow3g_uia2(const uint8_t key[16], const uint8_t iv[16], const uint8_t *msg, uint32_t bits, Bytes &tag);
 bool ref_kasumi_f8_keystream(const uint8_t key[16], const uint8_t iv[8], uint8_t *ks, size_t len);
 bool ref_kasumi_f9_user(const uint8_t key[16], const uint8_t *msg, size_t len, Bytes &tag);
+// tables and the KASUMI block function (used by the admission self-test)
+extern const uint8_t ref_zuc_S0[256];
+extern const uint8_t ref_zuc_S1[256];
+extern const uint8_t ref_snow3g_SR[256];
+extern const uint8_t ref_snow3g_SQ[256];
+extern const uint8_t ref_kasumi_S7[128];
+extern const uint16_t ref_kasumi_S9[512];
+uint64_t ref_kasumi_block(const uint8_t key[16], uint64_t in);
